@@ -8,7 +8,7 @@ CONSTANTS
   Roa <- GenRoa
   AspaDefs <- NoAspa
   ParentOf <- GenForeign
-  Ops = {"res", "foreign", "suspend", "remove", "roll", "roa", "refresh"}
+  Ops = {"res", "foreign", "suspend", "remove", "roll", "roa", "refresh", "map"}
   Depth = 34
   MaxApiStreak = 2
   MaxDestr = 1
